@@ -324,8 +324,12 @@ def run(chk, F, tier):
             forms = set()
             for bi, b in enumerate(inst["blocks"]):
                 t = b["term"]
-                if t and t["k"] == "call" and (t["func"].get("fn", {}).get("res_path") or "").endswith("WeightedTreeIndex::<W>::subtotal"):
+                if t and t["k"] == "call" and (_is_subtotal_call(t) or _is_index_call(t)):
                     a = affine(T.of_operand(t["args"][1]))
+                    if _is_index_call(t) and (a is None or a[1] == 0 or (a[1], a[2], a[3]) == (1, 0, 1)):
+                        # a direct `self.subtotals[..]` read of the node itself, of a fixed slot, or of something that is not a function of the
+                        # node index is not a child read; only `subtotals[a*i + b]` counts (the inlined form of `self.subtotal(a*i + b)`)
+                        continue
                     n_r4 += 1
                     if a is None:
                         chk.violation("index-map", "%s<%s>:child" % (meth, w), "%s: child index %s is not affine in the node index" % (meth, fmt(T.of_operand(t["args"][1]))),
@@ -366,7 +370,7 @@ def run(chk, F, tier):
                 t = inst["blocks"][bi]["term"]
                 if t and t["k"] == "call":
                     fn = t["func"].get("fn", {})
-                    if (fn.get("res_path") or "").endswith("WeightedTreeIndex::<W>::subtotal") or (fn.get("trait") or "").endswith("ops::index::Index"):
+                    if _is_subtotal_call(t) or _is_index_call(t):
                         a = affine(T.of_operand(t["args"][1]))
                         if a is not None and a[3] == 1:
                             subs.add((a[1], a[2]))
@@ -505,6 +509,16 @@ def _from_index_mut(fi, local, depth=0):
                     if _from_index_mut(fi, rv["place"]["l"], depth + 1):
                         return True
     return False
+
+
+def _is_subtotal_call(t):
+    return (t["func"].get("fn", {}).get("res_path") or "").endswith("WeightedTreeIndex::<W>::subtotal")
+
+
+def _is_index_call(t):
+    """`self.subtotals[expr]` on the Vec: the resolved trait is printed `core::ops::Index` (re-export) or `core::ops::index::Index`."""
+    tr = t["func"].get("fn", {}).get("trait") or ""
+    return tr.endswith("ops::Index") or tr.endswith("ops::index::Index")
 
 
 def return_paths(inst, cap=4000):
